@@ -820,11 +820,11 @@ func main() {
 			add("closure-rs8-R1-arith", bmgen.ArchSpec{Rsize: 8, R: 1, N: 0, M: 0, L: 0, O: 1, Ops: []string{"rset", "add", "inc", "dec", "cpy", "j"}}, 0, 300000, "boundary", nil)
 		}
 	}
-	for i := range cfgs {
-		cfgs[i].Deadline = 4 * time.Minute
-		if run.Thorough() {
-			cfgs[i].Deadline = 25 * time.Minute
-		}
+	// one wall-clock budget for the whole configuration list (4 / 40 min): every configuration gets what is left of it
+	// when it starts (at least one minute); a configuration cut by it is reported as capped (exhaustive=false)
+	globalEnd := time.Now().Add(4 * time.Minute)
+	if run.Thorough() {
+		globalEnd = time.Now().Add(40 * time.Minute)
 	}
 	results := make([]result, len(cfgs))
 	var wg sync.WaitGroup
@@ -835,11 +835,16 @@ func main() {
 		go func(i int) {
 			defer wg.Done()
 			defer func() { <-sem }()
+			cfgs[i].Deadline = time.Until(globalEnd)
+			if cfgs[i].Deadline < time.Minute {
+				cfgs[i].Deadline = time.Minute
+			}
 			results[i] = explore(cfgs[i], nil)
 		}(i)
 	}
 	wg.Wait()
 	hwoptResults := hwOptCheck(run, table)
+	run.Set("rom_data_programs", romDataCheck(run))
 	allClosed := true
 	var per []map[string]any
 	notSim := 0
